@@ -1893,4 +1893,9 @@ mod tests {
             }
         }
     }
+
+    #[cfg(lumina_verif)]
+    mod verif_native {
+        include!(concat!(env!("LUMINA_VERIF_DIR"), "/native/node/hx_client.rs"));
+    }
 }
